@@ -93,7 +93,7 @@ def run(ctx):
             bodies = [d for d in F.descendants(h) if any((c.method or "") in ("read_contract", "read_contract_multi") for c in d.calls())]
             R.ob(len(bodies) == 1, "ANCHOR", F.fns[h].where(), "ANCHOR|%s" % hname, "%s body not found" % hname)
             for d in bodies:
-                _bisection(R, F, d, hname)
+                _bisection(R, F, F.inlined(d), hname)     # private helpers of the server (block-number parsing, height re-check) read in place
     return R
 
 
@@ -160,6 +160,33 @@ def _returned_is_confirmed(R, F, d, hname, after):
         if any(d.dominates(a.bb, c.bb) and a.bb != c.bb for c in sinks_all):
             cf = a
     sinks = [c for c in sinks_all if cf is not None and d.dominates(cf.bb, c.bb) and cf.bb != c.bb]
+    # `figures.into_iter().map(|gas| format!("0x{:x}", gas))`: the formatting sits in a closure handed to an iterator adapter;
+    # the adapter call is the sink, what it iterates is what is returned, and the closure itself must not compute
+    cl_bad = []
+    adapter_sinks = []
+    if not sinks:
+        for g in F.descendants(d.id):
+            if g.kind != "closure":
+                continue
+            gs = [c for c in g.calls() if (c.path or "").endswith("::new_lower_hex") and "Argument" in (c.path or "") and not g.is_cleanup(c.bb)]
+            if not gs:
+                continue
+            for c in d.calls():
+                if g.id in ((c.func or {}).get("arg_cl") or []) and not d.is_cleanup(c.bb):
+                    adapter_sinks.append(c)
+                    for x in gs:
+                        for l in sorted(backward_locals(g, x.args[0]) if x.args and "l" in x.args[0] else ()):
+                            ty = (g.local_ty(l) or "")
+                            for (bb, idx, kind, payload) in g.defs().get(l, []):
+                                if g.is_cleanup(bb):
+                                    continue
+                                if (payload.get("k") == "assign" and payload["rv"]["k"] in ("bin", "un") and ty.lstrip("(").split(",")[0] in INT_TYPES) or \
+                                        (payload.get("k") == "call" and ty in INT_TYPES):
+                                    cl_bad.append((l, payload.get("line") or (payload.get("loc") or {}).get("l")))
+        for a in after:
+            if any(d.dominates(a.bb, c.bb) and a.bb != c.bb for c in adapter_sinks):
+                cf = a
+        sinks = [c for c in adapter_sinks if cf is not None and d.dominates(cf.bb, c.bb) and cf.bb != c.bb]
     R.ob(bool(sinks), "ANCHOR", d.where(), "ANCHOR|%s|hex-result" % hname, "%s: no hex-formatted figure is produced after the final confirmation run" % hname)
     if not sinks:
         return
@@ -190,6 +217,7 @@ def _returned_is_confirmed(R, F, d, hname, after):
                 computed = True
             if computed:
                 bad.append((l, payload.get("line") or (payload.get("loc") or {}).get("l")))
+    bad += cl_bad
     R.ob(not bad, "WIRE", d.where(), "WIRE|%s|returned-is-confirmed" % hname,
          "%s: the figure returned is recomputed after the final confirmation run (integer computation into the result at line(s) %s): what "
          "the caller gets was never simulated, so sizing the inscription from it can run out of gas" % (hname, sorted({str(x[1]) for x in bad})),
